@@ -1,12 +1,120 @@
 (* C09 - printing then parsing returns the same term, atom or clause.
-   Property theorems only; proofs are in Serde/*Proofs.v. *)
-From Coq Require Import List ZArith Bool.
-From MV Require Import Serde.Escape Serde.Lexer Serde.Parse.
+   Property theorems only; the proofs are in Serde/{Escape,Lexer,Parse}Proofs.v.
+   Models: Serde/Escape.v (ast/serde.go), Serde/Lexer.v (the lexer rules of
+   parse/gen/Mangle.g4), Serde/Parse.v (rule `term` with the visitors of
+   parse/parse.go and the constructor cases of functional.EvalApplyFn),
+   Term/Print.v (Constant.String, owned by C08). Bytes are integers 0..255. *)
+From Coq Require Import List ZArith Bool String.
+From MV Require Import Serde.Escape Serde.EscapeProofs Serde.Lexer Serde.LexerProofs Serde.Parse Serde.ParseProofs.
+From MV Require Import Term.Expr.
 Import ListNotations.
 Open Scope Z_scope.
 
-(* pre-fix behaviour (finding F5): a carriage return was printed raw and read back as a newline *)
+(* ---- escaping ------------------------------------------------------------- *)
+(* byte strings: every byte list *)
+Theorem unescape_escape_bytes :
+  forall s : list Z, Forall (fun c => 0 <= c < 256) s ->
+  unescape true (escape_bytes s) = Some s.
+Proof. exact unescape_escape_bytes_lemma. Qed.
+Print Assumptions unescape_escape_bytes.
+
+(* strings: Escape succeeds exactly on valid UTF-8 (escape_string s = Some e);
+   control characters, quotes, backslashes, CR and every code point included *)
+Theorem unescape_escape_string :
+  forall s e : list Z, Forall (fun c => 0 <= c < 256) s ->
+  escape_string s = Some e -> unescape false e = Some s.
+Proof. exact unescape_escape_string_lemma. Qed.
+Print Assumptions unescape_escape_string.
+
+Example unescape_escape_string_nonvacuous :
+  exists e, escape_string [97; 13; 10; 34; 92; 0; 195; 169; 240; 159; 152; 128] = Some e.
+Proof. eexists. vm_compute. reflexivity. Qed.
+
+(* UTF-8: the encoder gives back the bytes the decoder read *)
+Theorem utf8_encode_decode :
+  forall (s : list Z) (r : Z) (n : nat), utf8_decode s = Some (r, n) ->
+  128 <= r <= max_rune /\ firstn n s = utf8_encode r /\ (n <= List.length s)%nat /\ (1 <= n)%nat.
+Proof. exact utf8_decode_encode. Qed.
+Print Assumptions utf8_encode_decode.
+
+Example utf8_encode_decode_nonvacuous : utf8_decode [240; 159; 152; 128; 65] = Some (128512, 4%nat).
+Proof. reflexivity. Qed.
+
+(* ---- the lexer ------------------------------------------------------------- *)
+(* the printed literal is exactly one token, whatever follows it *)
+Theorem lex_string_exact :
+  forall s e rest : list Z, Forall (fun c => 0 <= c < 256) s -> escape_string s = Some e ->
+  next_token (34 :: e ++ 34 :: rest) = LTok (TString e) rest.
+Proof. exact next_token_string. Qed.
+Print Assumptions lex_string_exact.
+
+Theorem lex_bytestring_exact :
+  forall s rest : list Z, Forall (fun c => 0 <= c < 256) s ->
+  next_token (98 :: 34 :: escape_bytes s ++ 34 :: rest) = LTok (TByteString (escape_bytes s)) rest.
+Proof. exact next_token_bytestring. Qed.
+Print Assumptions lex_bytestring_exact.
+
+(* ---- print, then parse ------------------------------------------------------ *)
+(* Full statement (not proved beyond the two leaf kinds below):
+
+   parse_print_const : forall parse_float parse_time parse_dur fmt_float fmt_time fmt_dur,
+     (forall b, float_special b = false -> parse_float (format_float64 fmt_float b) = Some b /\ the text is -?digits.digits) ->
+     (forall n, parse_time (fmt_time n) = Some n /\ no quote or backslash in fmt_time n) ->
+     (forall n, parse_dur (fmt_dur n) = Some n /\ no quote or backslash in fmt_dur n) ->
+     forall c rest, wf c = true -> valid c = true -> map / struct keys of c sorted by distinct hashes ->
+     follow rest (rest is empty or starts with one of , ) ] } or a blank) ->
+     exists t, parse_term parse_float (fuel_for (print .. c ++ rest)) (print .. c ++ rest) = POk t rest
+               /\ eval parse_time parse_dur t = Some c.
+   parse_print_atom, parse_print_clause: the same for Atom.String and Clause.String
+   (the clause level is not modelled in Coq).
+
+   The unproved part (numbers, names, floats, times, durations, nested shapes, atoms) is covered on every
+   run by the model round trip inside Coq (Run.C09.judge, cases KRound / KAtom: print, parse, evaluate, compare)
+   and by the Go round trip. *)
+Theorem parse_print_const_partial :
+  forall (parse_float : list Z -> option Z) (fmt_float fmt_time fmt_dur : Z -> list Z)
+         (f : nat) (s rest : list Z),
+  Forall (fun c => 0 <= c < 256) s ->
+  (* a string constant with valid UTF-8 content *)
+  (forall e, escape_string s = Some e ->
+     parse_term parse_float (S f) (print fmt_float fmt_time fmt_dur (mk_string s) ++ rest)
+     = POk (PConst (mk_string s)) rest)
+  /\
+  (* a byte-string constant *)
+  parse_term parse_float (S f) (print fmt_float fmt_time fmt_dur (mk_bytes s) ++ rest)
+  = POk (PConst (mk_bytes s)) rest.
+Proof.
+  intros pf ff ft fd f s rest Hb. split.
+  - intros e He. exact (parse_print_string_lemma pf ff ft fd f s e rest Hb He).
+  - exact (parse_print_bytes_lemma pf ff ft fd f s rest Hb).
+Qed.
+Print Assumptions parse_print_const_partial.
+
+(* ---- what failed before the fixes ------------------------------------------- *)
+(* F5: Escape before the fix wrote a carriage return as it is; Unescape reads it as a newline *)
 Theorem cr_round_trip_refuted :
   exists s e, escape_string_prefix s = Some e /\ unescape false e <> Some s.
 Proof. exists [97; 13; 98], [97; 13; 98]. split; [reflexivity | vm_compute; discriminate]. Qed.
 Print Assumptions cr_round_trip_refuted.
+
+(* F6: the printer before the fix wrote the float 1.0 as "1", which is read as the number 1 *)
+Theorem float_int_round_trip_refuted :
+  exists (fmt_float : Z -> list Z) (bits : Z),
+    fmt_float bits = [49] /\
+    parse_term_all (fun _ => None) (print_prefix fmt_float (fun _ => []) (fun _ => []) (mk_float bits))
+    = POk (PConst (mk_number 1)) [] /\
+    mk_number 1 <> mk_float bits.
+Proof.
+  exists (fun _ => [49]), 4607182418800017408. split; [reflexivity|]. split; [vm_compute; reflexivity|].
+  vm_compute. discriminate.
+Qed.
+Print Assumptions float_int_round_trip_refuted.
+
+(* N18: "[-" is a token of its own; the text [-1, 2] (list printing before the fix) is not a term,
+   the text with the blank the repaired printer writes is the list *)
+Theorem bracket_minus_refuted :
+  parse_term_all (fun _ => None) (bs "[-1, 2]"%string) = PErr /\
+  parse_term_all (fun _ => None) (print (fun _ => []) (fun _ => []) (fun _ => []) (build (EList [ENum (-1); ENum 2])))
+  = POk (PApply s_fn_list [PConst (mk_number (-1)); PConst (mk_number 2)]) [].
+Proof. split; vm_compute; reflexivity. Qed.
+Print Assumptions bracket_minus_refuted.
